@@ -21,6 +21,26 @@ type c17Case struct {
 	Cfg     xzCfg  `json:"cfg"`
 	Out     int    `json:"out"`
 	Allowed int    `json:"allowed"`
+	// 0: one Write; otherwise the data is handed over in Write calls of this many bytes (no Flush in between): the
+	// property speaks about the data, not about how it is cut into calls
+	Piece int `json:"write_piece,omitempty"`
+}
+
+// c17Parts: the partition of n bytes into Write calls
+func c17Parts(n, piece int) []int {
+	if piece <= 0 || piece >= n {
+		return []int{n}
+	}
+	var parts []int
+	for n > 0 {
+		k := piece
+		if k > n {
+			k = n
+		}
+		parts = append(parts, k)
+		n -= k
+	}
+	return parts
 }
 
 func c17Data(c c17Case) []byte {
@@ -102,7 +122,7 @@ func checkC17(a *checkArgs, r *Result) error {
 		return err
 	}
 	defer dp.Close()
-	r.Rule = "size oracle of the property on the real writers: runs b^n (any byte, n up to 4 MiB for HashTable4, 40 KiB for BinaryTree whose run time is quadratic on runs) <= n/500; X||X for random X with |X| <= DictCap <= 1.15|X|; random data with DictCap >= 64 KiB <= n + n/500; each plus 128 bytes per stream and 64 per block; over dictionary sizes, look-ahead sizes, lc/lp/pb, both match finders, xz and LZMA2 writers (no Flush). Every output is also read back. Non-trivial: n >= 4096; distinct by case."
+	r.Rule = "size oracle of the property on the real writers: runs b^n (any byte, n up to 4 MiB for HashTable4, 40 KiB for BinaryTree whose run time is quadratic on runs) <= n/500; X||X for random X with |X| <= DictCap <= 1.15|X|; random data with DictCap >= 64 KiB <= n + n/500; each plus 128 bytes per stream and 64 per block; over dictionary sizes, look-ahead sizes, lc/lp/pb, both match finders, xz and LZMA2 writers (no Flush), the data handed over in one Write or in pieces of 512 … 65536 bytes. Every output is also read back. Non-trivial: n >= 4096; distinct by case."
 	rng := rand.New(rand.NewSource(a.seed))
 	n := 130
 	if a.tier == "thorough" {
@@ -145,6 +165,12 @@ func checkC17(a *checkArgs, r *Result) error {
 			}
 		}
 		cs.Cfg = c
+		if i%4 == 3 || i%7 == 0 {
+			cs.Piece = []int{512, 1024, 4096, 65536, 1 + rng.Intn(5000)}[rng.Intn(5)]
+			if cs.N/cs.Piece > 20000 {
+				cs.Piece = 4096
+			}
+		}
 		cases = append(cases, cs)
 	}
 	var wg sync.WaitGroup
@@ -159,7 +185,7 @@ func checkC17(a *checkArgs, r *Result) error {
 			var out []byte
 			blocks := 1
 			if cs.Writer == "xz" {
-				w := goXzWrite(cs.Cfg, data, []int{len(data)}, 600*time.Second)
+				w := goXzWrite(cs.Cfg, data, c17Parts(len(data), cs.Piece), 600*time.Second)
 				if e := w.firstErr(); e != "" || w.TimedOut {
 					r.Violate("counterexample", "write-error", cs, e)
 					return
@@ -183,7 +209,11 @@ func checkC17(a *checkArgs, r *Result) error {
 					r.Violate("counterexample", "new-writer", cs, err.Error())
 					return
 				}
-				wr.Write(data)
+				off := 0
+				for _, k := range c17Parts(len(data), cs.Piece) {
+					wr.Write(data[off : off+k])
+					off += k
+				}
 				wr.Close()
 				out = buf.Bytes()
 				g := goLzma2Read(out, 0, 600*time.Second)
@@ -209,6 +239,9 @@ func checkC17(a *checkArgs, r *Result) error {
 			r.Count(fmt.Sprint(cs.Family, cs.N, cs.Byte, cs.Seed, cs.Cfg), len(data) >= 4096)
 			r.Inc("family_" + cs.Family)
 			r.Inc(fmt.Sprintf("matcher_%d", cs.Cfg.Matcher))
+			if cs.Piece > 0 {
+				r.Inc("written_in_pieces")
+			}
 			if len(out) > allowed {
 				r.Violate("counterexample", fmt.Sprintf("bound-exceeded family=%s matcher=%d writer=%s", cs.Family, cs.Cfg.Matcher, cs.Writer), cs,
 					fmt.Sprintf("%s input of %d bytes compresses to %d bytes; the property allows %d", cs.Family, len(data), len(out), allowed))
